@@ -388,6 +388,20 @@ def run_auto(ctx, tab, cases, objdir):
     auto_c07.run(ctx, tab, cases, objdir, sys.modules[__name__])
 
 
+def private_build(ctx, flavour):
+    """copy of the compiler in this run's scratch dir (the shared build cache is evicted when /repo changes)."""
+    import shutil, time
+    dst = ctx.path("bin-" + flavour)
+    os.makedirs(dst, exist_ok=True)
+    for attempt in range(4):
+        try:
+            shutil.copy2(os.path.join(vlib.build(flavour), "cproc-qbe"), os.path.join(dst, "cproc-qbe"))
+            return dst
+        except (OSError, vlib.MachineryError):
+            time.sleep(3)
+    raise vlib.MachineryError("cannot obtain a %s build of cproc-qbe" % flavour)
+
+
 def emit_cases(ctx, cfg, **kw):
     r = ctx.tlc_must_pass("Init", cfg, **kw)
     cases = [json.loads(v) for v in r.vcases]
@@ -426,7 +440,7 @@ def run(ctx):
     if missing:
         ctx.cov["untaken_actions"] = sorted(missing)
         raise vlib.MachineryError("vacuity guard: actions never taken on a valid initializer: %s" % sorted(missing))
-    objdir = vlib.build("plain")
+    objdir = private_build(ctx, "plain")
     gcc_audit(ctx, tab, cases)
     run_static(ctx, tab, cases, objdir)
     for c in cases[len(cases) // 3::max(1, len(cases) // 5)][:4]:
@@ -441,7 +455,7 @@ def replay(ctx, path):
     info = rec["case"]
     case = info.get("case", info)
     tab = load_tables(ctx)
-    objdir = vlib.build("plain")
+    objdir = private_build(ctx, "plain")
     src = prelude(tab) + render_decl(tab, case, "x") + "\n"
     rc, out, err = vlib.cproc(objdir, src)
     print("source:   " + render_decl(tab, case, "x"))
